@@ -46,15 +46,13 @@ def main():
     meta["ran"].append(f"demo without change: rc={rc} {out.strip().splitlines()[-1][:200] if out.strip() else ''}")
     sh("git apply patch.diff", wt)
     # 3. our quick checks against the changed tree
-    env = dict(os.environ, VERIF_REPO=wt, VERIF_SCALE=a.scale)
+    env = dict(os.environ, VERIF_REPO=wt, VERIF_SCALE=a.scale, VERIF_MUTANT="1")
     results = {}
     for prop in (a.checks.split(",") if a.checks else [a.property]):
         rc, out = sh(f"/venv/bin/python run_check.py --property {prop} --tier quick", HERE, env=env)
         sigs = sorted({l.split("signature=")[1].strip() for l in out.splitlines() if "signature=" in l})
         results[prop] = {"exit": rc, "signatures": sigs}
         meta["ran"].append(f"run_check --property {prop} --tier quick (VERIF_REPO={wt}): rc={rc}")
-    subprocess.run(["git", "-C", HERE, "clean", "-fdq", "replays"])
-    subprocess.run(["git", "-C", HERE, "checkout", "--", "evidence"])
     meta["quick_checks"] = results
     meta["caught_by"] = [p for p, r in results.items() if r["exit"] == 1]
     d = os.path.join(HERE, "seeded", a.seed_id)
